@@ -82,3 +82,10 @@ fire("C42", "while-loop-binds-condition-constants-before-body-constants",
 silent("C42", "while-loop-slices-defined-in-another-order-of-statements",
        [(_WL, "        body_consts = slice(0, len(jaxpr_body_fn.consts))\n        cond_consts = slice(body_consts.stop, body_consts.stop + len(jaxpr_cond_fn.consts))\n        args_slice = slice(cond_consts.stop, None)\n",
               "        n_body = len(jaxpr_body_fn.consts)\n        body_consts = slice(0, len(jaxpr_body_fn.consts))\n        cond_consts = slice(body_consts.stop, body_consts.stop + len(jaxpr_cond_fn.consts))\n        args_slice = slice(cond_consts.stop, None)\n")])
+
+# --- R-C42-memo
+_BI = "pennylane/capture/base_interpreter.py"
+fire("C42", "subroutine-cache-keyed-on-name-and-input-avals",
+     (_BI, "    if jaxpr in self.subroutine_cache:\n        new_jaxpr = self.subroutine_cache[jaxpr]\n    else:\n        new_jaxpr = jaxpr_to_jaxpr(copy(self), jaxpr.jaxpr, jaxpr.consts, *invals)\n        self.subroutine_cache[jaxpr] = new_jaxpr",
+           "    key = (params[\"name\"], tuple(jaxpr.in_avals))\n    if key in self.subroutine_cache:\n        new_jaxpr = self.subroutine_cache[key]\n    else:\n        new_jaxpr = jaxpr_to_jaxpr(copy(self), jaxpr.jaxpr, jaxpr.consts, *invals)\n        self.subroutine_cache[key] = new_jaxpr"),
+     "R-C42-memo", "_quantum_subroutine")
